@@ -142,3 +142,49 @@ func InLoop(b *ssa.BasicBlock) bool {
 	}
 	return false
 }
+
+// Guard is a conditional edge that dominates an instruction: the instruction
+// executes only after Cond evaluated to Branch.
+type Guard struct {
+	Cond   ssa.Value
+	Branch bool
+	If     *ssa.If
+}
+
+// Guards lists the conditional edges dominating the block of in (innermost first).
+func Guards(in ssa.Instruction) []Guard {
+	b := in.Block()
+	var out []Guard
+	for d := b.Idom(); d != nil; d = d.Idom() {
+		if len(d.Instrs) == 0 {
+			continue
+		}
+		ifi, ok := d.Instrs[len(d.Instrs)-1].(*ssa.If)
+		if !ok || d.Succs[0] == d.Succs[1] {
+			continue
+		}
+		for k, s := range d.Succs {
+			if edgeDominates(d, s, b) {
+				out = append(out, Guard{Cond: ifi.Cond, Branch: k == 0, If: ifi})
+			}
+		}
+	}
+	return out
+}
+
+// edgeDominates reports whether every path to b goes through the edge d->s.
+func edgeDominates(d, s, b *ssa.BasicBlock) bool {
+	if !(s == b || s.Dominates(b)) {
+		return false
+	}
+	// every other predecessor of s must itself be dominated by s (loop back edges)
+	for _, p := range s.Preds {
+		if p == d {
+			continue
+		}
+		if !s.Dominates(p) {
+			return false
+		}
+	}
+	return true
+}
